@@ -211,14 +211,19 @@ func TestC14(t *testing.T) {
 	for i, tr := range trees {
 		errs[i] = tr.build()
 	}
-	loc := server.NewLocal(handler.Map{
+	c14mux := handler.Map{
 		"e": handler.New(func(ctx context.Context, idx []int) (any, error) { return nil, errs[idx[0]] }),
 		"bad": func(ctx context.Context, req *jrpc2.Request) (any, error) {
 			return map[string]any{"f": func() {}}, nil // not marshalable
 		},
 		"badch": func(ctx context.Context, req *jrpc2.Request) (any, error) { return make(chan int), nil },
 		"nan":   func(ctx context.Context, req *jrpc2.Request) (any, error) { return math.NaN(), nil },
-	}, &server.LocalOptions{Server: &jrpc2.ServerOptions{Concurrency: 4}})
+		"rawbad": func(ctx context.Context, req *jrpc2.Request) (any, error) { return json.RawMessage(`{"a":[1,2,}`), nil },
+		"rawtrunc": func(ctx context.Context, req *jrpc2.Request) (any, error) { return json.RawMessage(`{"a":"unterminated`), nil },
+		"rawptr": func(ctx context.Context, req *jrpc2.Request) (any, error) { r := json.RawMessage(`nope`); return &r, nil },
+		"marshaler": func(ctx context.Context, req *jrpc2.Request) (any, error) { return badMarshaler{}, nil },
+	}
+	loc := server.NewLocal(c14mux, &server.LocalOptions{Server: &jrpc2.ServerOptions{Concurrency: 4}})
 	defer loc.Close()
 	ctx := context.Background()
 
@@ -302,14 +307,36 @@ func TestC14(t *testing.T) {
 	}
 	res.Traces = len(model)
 
-	// ---- unmarshalable results become error responses
-	for _, m := range []string{"bad", "badch", "nan"} {
-		rsp, err := loc.Client.Call(ctx, m, nil)
+	// ---- unmarshalable results become error responses (observed on the wire and through the client)
+	for _, m := range []string{"bad", "badch", "nan", "rawbad", "rawtrunc", "rawptr", "marshaler"} {
 		res.Case("unmarshalable:"+m, true, m)
+		cli, sch := rawPair()
+		rs := jrpc2.NewServer(c14mux, nil).Start(sch)
+		cli.Send([]byte(`{"jsonrpc":"2.0","id":1,"method":"` + m + `"}`))
+		reply, rerr := cli.Recv()
+		var obj struct {
+			Result json.RawMessage `json:"result"`
+			Error  *struct {
+				Code    *int    `json:"code"`
+				Message *string `json:"message"`
+			} `json:"error"`
+		}
+		if rerr != nil || !json.Valid(reply) || json.Unmarshal(reply, &obj) != nil {
+			res.Violatef("unmarshalable result: malformed response on the wire", m, "method %s: reply %q err %v", m, reply, rerr)
+		} else if obj.Error == nil || obj.Error.Code == nil || obj.Error.Message == nil || obj.Result != nil {
+			res.Violatef("unmarshalable result did not become an error response", m, "method %s: reply %s", m, reply)
+		}
+		cli.Close()
+		rs.Wait()
+		rsp, err := loc.Client.Call(ctx, m, nil)
 		if err == nil {
 			res.Violatef("unmarshalable result did not become an error", m, "method %s: got result %s", m, rsp.ResultString())
 		} else if _, ok := err.(*jrpc2.Error); !ok {
 			res.Violatef("unmarshalable result: malformed or missing response", m, "method %s: %v", m, err)
+		}
+		if loc.Client.IsStopped() {
+			res.Violatef("unmarshalable result broke the connection", m, "method %s: client stopped (%v)", m, err)
+			break
 		}
 	}
 
@@ -367,6 +394,10 @@ func TestC14(t *testing.T) {
 		}
 	}
 }
+
+type badMarshaler struct{}
+
+func (badMarshaler) MarshalJSON() ([]byte, error) { return []byte(`{"x":`), nil }
 
 func maskField(s string, idx int, with string) string {
 	f := strings.Fields(s)
